@@ -127,6 +127,8 @@ def split_toks(s):
         else:
             while i < n and s[i] not in ' ()"':
                 i += 1
+            if i == st:
+                i += 1  # stray closing parenthesis
         out.append(s[st:i])
     return out
 
